@@ -13,7 +13,7 @@ ALL = ["C%02d" % k for k in range(1, 21)]
 CLAIMS = {
     "C01": {
         "category": "exploration",
-        "technique": "reference-model oracle (R-FEEL interpreter) over observed evaluations + metamorphic scope padding",
+        "technique": "reference-model oracle (R-FEEL interpreter) over observed evaluations of warm evaluators (first use over a decoy scope, pre-parse under a scope of another shape, repetition) + metamorphic scope padding",
         "text": "Seeded typed random expressions of the FEEL core fragment and a forced construct x construct matrix are parsed and evaluated by the real code in scopes bound programmatically; every observed value is compared structurally with an independent reference interpreter (decimal128 arithmetic, three-valued logic, filters, paths, for/some/every products, function invocation) and with the same evaluation in a scope padded with unrelated names and layers. Disagreements are minimised to the smallest closed sub-expression.",
         "note": "R-FEEL (lib/rfeel.py) is trusted; contested constructs (singleton filter results, non-boolean conditions, incomparable equality inside lists, inexact powers) are counted as undecided, never as violations. Parsing defects of operator nesting are left to C06 (the generator keeps boolean operators out of `between` operands and range end points).",
         "design_ref": "DESIGN.md §3 C01, §2 R-FEEL",
@@ -62,7 +62,7 @@ CLAIMS = {
     },
     "C09": {
         "category": "exploration",
-        "technique": "runtime law monitor over observed evaluations (exhaustive value alphabet + seeded random values)",
+        "technique": "runtime law monitor over observed evaluations by warm evaluators (exhaustive value alphabet + seeded random values; interval end points as names and as literals)",
         "text": "Every ordered pair of a 51-value alphabet (all value kinds) under all 8 operators and every same-kind triple of the ordered kinds under between / 4 interval forms / explicit comparisons is evaluated by the real parser+evaluator; the stated laws are checked between the observed results. Exhaustive over the alphabet, sampled beyond it.",
         "note": "Trusts only the law statements themselves; values outside the alphabet are sampled (seeded). Scope bindings are built programmatically.",
         "design_ref": "DESIGN.md §3 C09",
@@ -79,7 +79,7 @@ CLAIMS["C11"] = {
 
 CLAIMS["C08"] = {
     "category": "exploration",
-    "technique": "reference-model oracle (R-BIF, independent Python reference of the listed built-ins) over observed invocations + metamorphic named-vs-positional monitor; 10 % replay on ASan in the thorough tier",
+    "technique": "reference-model oracle (R-BIF, independent Python reference of the listed built-ins) over observed invocations by warm evaluators (first use over a decoy scope, repetition), arguments as names, literals and value-preserving expressions + metamorphic named-vs-positional monitor; 10 % replay on ASan in the thorough tier",
     "text": "Seeded and enumerated argument tuples are bound to scope names (partly spelled as literals) and invoked through the real parser and evaluator positionally and with named parameters in several orders: every start and length from -(L+2) to L+2 over ASCII/BMP/astral strings and lists of length 0..8 with nulls, nesting and duplicates; 1.0-style and fractional positions; values near 2^63/2^64; every function x arity 0..4 over 16 value kinds; regex, number() and equality grids. Every observed value is compared with R-BIF (written from DMN 1.3 tables 72-76, self-checked on 65 examples of those tables) and every named invocation with its positional twin; panics are violations. Quick ~0.4 M calls, thorough ~5 M.",
     "note": "R-BIF (lib/rbif.py) is trusted. Where the specification supports two readings (singleton-list conversion of arguments, explicit null for optional parameters, non-integer lengths) both results are accepted; regex functions are decided only on a validated subset common to XPath, Rust regex and Python re; string() of lists/contexts, custom sort orders and date min/max are undecided. Aggregates within 2 ulp.",
     "design_ref": "DESIGN.md §3 C08",
@@ -138,7 +138,7 @@ CLAIMS["C12"] = {
 
 CLAIMS["C10"] = {
     "category": "exploration",
-    "technique": "reference-model oracle (R-FEEL over the generator's tree in which each intended name occurrence is one identifier) over observed parse+evaluate in programmatically built scopes",
+    "technique": "reference-model oracle (R-FEEL over the generator's tree in which each intended name occurrence is one identifier) over observed parse+evaluate in programmatically built scopes (warm evaluators, pre-parse under another scope shape) and over histories on one scope object whose names are re-bound between parses",
     "text": "Seeded name sets (1-4 word names with and without the additional symbols . / - ' + *, non-ASCII words, and the adversarial families: a name that is a prefix of another; a, b and a-b / a+b / a*b / a/b all bound; a+b bound but b not; three-word symbol names) are bound through Name::new and used in 33 expression positions (operands of every arithmetic operator, comparisons, between, in, if, for / some / every domains and bodies, multi-word iteration variables and formal parameters, filters, context values and multi-word keys, path heads, positional and named invocation), each name occurrence written in random spellings (1-3 blanks, tabs, line breaks between words; blanks or not around symbols); the value must equal the reference value of the tree. Quick 250 rounds x 17 families (~254k evaluations), thorough 8000 rounds.",
     "note": "Words are never keywords, literals or built-in names; name sets in which two bound names joined by a symbol or a blank read as a third bound name arise only in the families built on purpose (there the longest bound name is the expected reading).",
     "design_ref": "DESIGN.md §3 C10",
